@@ -15,6 +15,20 @@ import re
 import sys
 
 
+
+def _write_if_changed(path, text):
+    """atomic, and only when the content differs: concurrent checks regenerate the same files"""
+    try:
+        if open(path).read() == text:
+            return
+    except OSError:
+        pass
+    tmp = "%s.tmp%d" % (path, os.getpid())
+    with open(tmp, "w") as f:
+        f.write(text)
+    os.replace(tmp, path)
+
+
 def die(msg):
     print("gen_valueorder: ERROR: " + msg, file=sys.stderr)
     sys.exit(2)
